@@ -104,6 +104,16 @@ func (ex *Exec) registerIntrinsics() {
 		}
 		return outs
 	}
+	// verifShard(n): an n-way case split whose cases are explored by separate
+	// executor instances in parallel (directive //verif:shards n).
+	I["verif:verifshard"] = func(ex *Exec, st *State, c *ssa.CallCommon, a []Value) []Outcome {
+		n := ex.argInt(a[0])
+		if ex.shard < 0 || ex.shards != n {
+			return I["verif:verifchoice"](ex, st, c, a)
+		}
+		st.inputs = append(st.inputs, Input{kind: "choice", n: ex.shard})
+		return ret1(st, tt.BV(uint64(ex.shard), 64))
+	}
 	I["verif:verifbytes"] = func(ex *Exec, st *State, _ *ssa.CallCommon, a []Value) []Outcome {
 		return ret1(st, ex.freshBytes(st, ex.argInt(a[0]), false))
 	}
@@ -162,6 +172,15 @@ func (ex *Exec) registerIntrinsics() {
 	I["verif:verifnote"] = func(ex *Exec, st *State, _ *ssa.CallCommon, a []Value) []Outcome {
 		ex.assumes[ex.argStr(st, a[0])] = true
 		return ret1(st, nil)
+	}
+	I["verif:verifand"] = func(ex *Exec, st *State, _ *ssa.CallCommon, a []Value) []Outcome {
+		return ret1(st, tt.BAnd(a[0].(*Term), a[1].(*Term)))
+	}
+	I["verif:verifor"] = func(ex *Exec, st *State, _ *ssa.CallCommon, a []Value) []Outcome {
+		return ret1(st, tt.BOr(a[0].(*Term), a[1].(*Term)))
+	}
+	I["verif:verifite"] = func(ex *Exec, st *State, _ *ssa.CallCommon, a []Value) []Outcome {
+		return ret1(st, tt.Ite(a[0].(*Term), a[1].(*Term), a[2].(*Term)))
 	}
 	I["verif:verifsymbolic"] = func(ex *Exec, st *State, _ *ssa.CallCommon, a []Value) []Outcome {
 		return ret1(st, tt.True)
